@@ -24,6 +24,7 @@ N = 1024) -> threshold 1e-11; equiangular nodes are symmetric to 4e-16 and their
 1.2e-14 at 64 nodes -> thresholds 1e-13 / 1e-10; sec2_lat next to the poles amplifies the node asymmetry by
 2 / cos^2(lat) (3e-13 at 32 equiangular nodes) -> threshold 1e-10.
 """
+import functools
 import os
 import re
 
@@ -86,18 +87,23 @@ class _Env:
   def impl(self, name):
     return self.sh.RealSphericalHarmonics if name == 'real' else self.sh.FastSphericalHarmonics
 
-  def grid(self, M, L, N, J, spacing='gauss', impl='real', radius=1.0, offset=0.0):
-    key = (M, L, N, J, spacing, impl, float(radius), float(offset))
+  def grid(self, M, L, N, J, spacing='gauss', impl='real', radius=1.0, offset=0.0, base=None):
+    """`base`: `base_shape_multiple` of FastSphericalHarmonics (None: the default, no padding without a mesh)"""
+    key = (M, L, N, J, spacing, impl, float(radius), float(offset), base)
     if key not in self._grids:
+      cls = self.impl(impl)
+      if base is not None:
+        assert impl == 'fast'
+        cls = functools.partial(cls, base_shape_multiple=int(base))
       self._grids[key] = self.sh.Grid(longitude_wavenumbers=M, total_wavenumbers=L, longitude_nodes=N,
                                       latitude_nodes=J, latitude_spacing=spacing, longitude_offset=offset,
-                                      radius=radius, spherical_harmonics_impl=self.impl(impl))
+                                      radius=radius, spherical_harmonics_impl=cls)
     return self._grids[key]
 
-  def std_grid(self, M, dealiasing='quadratic', spacing='gauss', impl='real', radius=1.0, offset=0.0):
+  def std_grid(self, M, dealiasing='quadratic', spacing='gauss', impl='real', radius=1.0, offset=0.0, base=None):
     order = {'linear': 2, 'quadratic': 3, 'cubic': 4}[dealiasing]
     N = order * M + 1
-    return self.grid(M, M + 1, N, -(-N // 2), spacing, impl, radius, offset)
+    return self.grid(M, M + 1, N, -(-N // 2), spacing, impl, radius, offset, base)
 
   def specs(self, rng, radius=1.0):
     R = float(rng.uniform(0.5, 3.0)) * 1e-3
@@ -111,8 +117,12 @@ class _Env:
 
 def _gname(g):
   impl = 'real' if type(g.spherical_harmonics).__name__ == 'RealSphericalHarmonics' else 'fast'
-  return (f'{impl}-{g.latitude_spacing}-M{g.longitude_wavenumbers}L{g.total_wavenumbers}'
+  name = (f'{impl}-{g.latitude_spacing}-M{g.longitude_wavenumbers}L{g.total_wavenumbers}'
           f'N{g.longitude_nodes}J{g.latitude_nodes}')
+  if any(g.nodal_padding) or any(g.modal_padding):
+    name += (f'-base{getattr(g.spherical_harmonics, "base_shape_multiple", None)}'
+             f'-nodal{g.nodal_shape[0]}x{g.nodal_shape[1]}-modal{g.modal_shape[0]}x{g.modal_shape[1]}')
+  return name
 
 
 def _is_fast(g):
@@ -762,6 +772,267 @@ def _probes_sw(ctx, E, worst):
 
 
 # --------------------------------------------------------------------------
+# (c') the property on PADDED layouts of FastSphericalHarmonics (base_shape_multiple > 1)
+#
+# With `base_shape_multiple = b` the nodal arrays are padded to multiples of (b, b) and the modal arrays to multiples of
+# (2 b, b): rows / columns appended after the last real longitude / latitude / wavenumber, which the transforms ignore
+# (zero rows of `basis.f`, zero weights, zero Legendre values).  np.roll / a flip of such a nodal array is NOT the
+# symmetry, so here the symmetry acts on the MODAL state only (`PadSym`): the rotation by the REAL number of
+# longitudes on the real (cos, sin) rows, the sign (-1)^(l+m) on the real entries; padding untouched.
+
+
+class PadSym:
+  """the two symmetries as modal actions on a (possibly padded) fast layout, from the documented layout only
+  (rows 2m, 2m+1 = cos / sin of wavenumber m < M, column l < L; everything else is padding)."""
+
+  def __init__(self, grid, k):
+    assert _is_fast(grid)
+    self.grid, self.k = grid, k
+    self.eps = -1.0 if k is None else 1.0
+    self.name = 'mirror' if k is None else 'rot'
+    self.M, self.L = grid.longitude_wavenumbers, grid.total_wavenumbers
+    self.N, self.J = grid.longitude_nodes, grid.latitude_nodes      # REAL node counts, never the padded ones
+    self.identity = (k is not None) and (k % max(self.N, 1) == 0)
+    rows, cols = grid.modal_shape
+    i, j = np.arange(rows)[:, None], np.arange(cols)[None, :]
+    real = (i < 2 * self.M) & (j < self.L)
+    self._sign = np.where(real & (((i // 2) + j) % 2 == 1), -1.0, 1.0)
+
+  def tag(self):
+    return 'mirror' if self.k is None else f'rot{self.k}'
+
+  def modal(self, x):
+    x = np.asarray(x, dtype=float)
+    if self.k is None:
+      return x * self._sign
+    out = x.copy()
+    L = self.L
+    for m in range(1, self.M):
+      ang = 2 * np.pi * ((m * self.k) % self.N) / self.N
+      c, s = np.cos(ang), np.sin(ang)
+      out[..., 2 * m, :L] = c * x[..., 2 * m, :L] - s * x[..., 2 * m + 1, :L]
+      out[..., 2 * m + 1, :L] = s * x[..., 2 * m, :L] + c * x[..., 2 * m + 1, :L]
+    return out
+
+  def modal_odd(self, x):
+    return self.eps * self.modal(x)
+
+  def nodal_real_block(self, z):
+    """the nodal action on the block of REAL nodes [:N, :J]; the padding rows / columns stay where they are"""
+    z = np.asarray(z, dtype=float)
+    out = z.copy()
+    N, J = self.N, self.J
+    if self.k is None:
+      out[..., :J] = z[..., :J][..., ::-1]
+    else:
+      out[..., :N, :] = np.roll(z[..., :N, :], self.k, axis=-2)
+    return out
+
+
+# (M, dealiasing, base_shape_multiple, latitude spacing); nodal = (N, J) -> multiples of (b, b), modal = (2M, L) ->
+# multiples of (2b, b).  The paddings are recomputed from the real Grid and recorded in every probe input.
+PAD_TABLE_QUICK = [
+    (8, 'quadratic', 5, 'gauss'),        # (25, 13) -> (25, 15); (16, 9) -> (20, 10): latitude only (+ modal)
+    (10, 'quadratic', 4, 'gauss'),       # (31, 16) -> (32, 16); (20, 11) -> (24, 12): longitude only (+ modal)
+    (5, 'quadratic', 5, 'gauss'),        # (16, 8) -> (20, 10); (10, 6) -> (10, 10)
+    (7, 'quadratic', 4, 'gauss'),        # (22, 11) -> (24, 12); (14, 8) -> (16, 8)
+    (7, 'quadratic', 5, 'equiangular'),  # (22, 11) -> (25, 15); (14, 8) -> (20, 10)
+    (8, 'quadratic', 8, 'gauss'),        # (25, 13) -> (32, 16); (16, 9) -> (16, 16)
+    (6, 'linear', 4, 'gauss'),           # (13, 7) -> (16, 8); (12, 7) -> (16, 8)
+    (5, 'cubic', 8, 'gauss'),            # (21, 11) -> (24, 16); (10, 6) -> (16, 8)
+]
+PAD_TABLE_THOROUGH = [
+    (5, 'quadratic', 4, 'gauss'),        # (16, 8) unpadded; (10, 6) -> (16, 8): modal axes only
+    (8, 'quadratic', 5, 'equiangular'),
+    (10, 'quadratic', 8, 'gauss'),       # (31, 16) -> (32, 16); (20, 11) -> (32, 16)
+]
+# the layouts of the seeded regressions: Grid.T21 / with_wavenumbers(22) with base 5 / 8
+PAD_TABLE_LARGE = [(22, 23, 64, 32, 5), (22, 23, 67, 34, 8), (22, 23, 64, 32, 8)]
+
+
+def _pad_info(g):
+  return dict(base_shape_multiple=getattr(g.spherical_harmonics, 'base_shape_multiple', None),
+              nodes=[g.longitude_nodes, g.latitude_nodes], nodal_shape=list(g.nodal_shape),
+              nodal_padding=list(g.nodal_padding), modal_limits=[2 * g.longitude_wavenumbers, g.total_wavenumbers],
+              modal_shape=list(g.modal_shape), modal_padding=list(g.modal_padding))
+
+
+def _pad_actions_agree(ctx, E, g, worst):
+  """`PadSym` against the nodal actions: on an unpadded grid the harness' roll / flip (`Sym.nodal`, the actions of
+  sections (a) - (c)); on a padded grid the same permutation of the block of real nodes.  Both directions."""
+  rng, J_ = ctx.rng, E.jnp.asarray
+  gname = _gname(g)
+  padded = any(g.nodal_padding) or any(g.modal_padding)
+  keep = _keep(g)
+  x = rng.standard_normal((2,) + g.modal_shape) * keep
+  z = rng.standard_normal((2,) + g.nodal_shape)
+  N = g.longitude_nodes
+  for k in [1, int(rng.integers(2, max(N, 3))), N + 3, None]:
+    P = PadSym(g, k)
+    inp = dict(_pad_info(g), grid=gname, sym=P.tag())
+    ctx.case(('pad-action', gname, P.tag(), x.tobytes()), nontrivial=True)
+    with ctx.impl('probe:pad:action:raises', inp):
+      nod = P.nodal_real_block
+      if not padded:
+        S = Sym(g, k)
+        nod = S.nodal
+        d0 = _rel(P.modal(x), S.modal(x))
+        ctx.expect(d0 <= 1e-15, 'probe:pad:action-vs-harness', f'PadSym.modal differs from Sym.modal on the unpadded '
+                   f'{gname} ({P.tag()}): {d0:.3e}', inp)
+      # restricted to the real nodes: the padding of `to_nodal(x)` is zero and that of `z` is ignored by `to_modal`
+      d1 = _rel(np.asarray(g.to_nodal(J_(P.modal(x)))), nod(np.asarray(g.to_nodal(J_(x)))))
+      d2 = _rel(np.asarray(g.to_modal(J_(nod(z)))) * keep, P.modal(np.asarray(g.to_modal(J_(z))) * keep))
+      worst[0] = max(worst[0], d1, d2)
+      what = 'roll / flip of the nodal array' if not padded else 'roll / flip of the block of real nodes'
+      ctx.expect(d1 <= HYP_TOL, 'probe:pad:action-vs-nodal', f'to_nodal(modal action) differs from the {what} of '
+                 f'to_nodal on {gname} ({P.tag()}): {d1:.3e}', inp)
+      ctx.expect(d2 <= HYP_TOL, 'probe:pad:action-vs-nodal', f'to_modal({what}) differs from the modal action of '
+                 f'to_modal on {gname} ({P.tag()}): {d2:.3e}', inp)
+
+
+def _masked(grid, leaves):
+  m = np.asarray(grid.mask, dtype=float)
+  return {k: (v if k == 'sim_time' else np.asarray(v, dtype=float) * m) for k, v in leaves.items()}
+
+
+def _pad_run(E, eq, s0, s1, name, dt, alpha, filters, steps, leaves):
+  ti = E.ti
+  res = dict(explicit=leaves(eq.explicit_terms(s0)), implicit=leaves(eq.implicit_terms(s0)),
+             inverse=leaves(eq.implicit_inverse(s0, dt)))
+  if name == 'leapfrog':
+    u = (s0, s1)
+    step = ti.step_with_filters(ti.semi_implicit_leapfrog(eq, dt, alpha), filters)
+  else:
+    u = s0
+    step = ti.step_with_filters(E.INT[name](eq, dt), filters)
+  for _ in range(steps):
+    u = step(u)
+  res['trajectory'] = leaves(u[1] if name == 'leapfrog' else u)
+  return res
+
+
+def _pad_config(ctx, E, grid, syms, fam, ci, worst, cls='dry', layers=1, orography=True, name='sil3', stack=()):
+  """one equation object on one padded grid: reference run, then one run per symmetry on the transformed data"""
+  rng, jnp = ctx.rng, E.jnp
+  steps = ctx.n(3, 6)
+  gname = _gname(grid)
+  leap = name == 'leapfrog'
+  dt = float(rng.choice([0.005, 0.01]))
+  alpha = float(rng.choice([0.5, 0.7]))
+  filters = _filters(E, grid, dt, list(stack), leap, rng)
+  pert = 1 + 0.01 * rng.standard_normal(3)
+  if fam == 'sw':
+    mk, oro, st, info = _sw_setup(ctx, E, grid, layers, orography)
+    clsname, leaves, key0 = 'ShallowWaterEquations', _sw_leaves, 'probe:pad:sw'
+
+    def state(S, scale=(1, 1, 1)):
+      od = (lambda v: v) if S is None else S.modal_odd
+      ev = (lambda v: v) if S is None else S.modal
+      return E.sw.State(vorticity=jnp.asarray(od(st[0] * scale[0])), divergence=jnp.asarray(ev(st[1] * scale[1])),
+                        potential=jnp.asarray(ev(st[2] * scale[2])))
+  else:
+    mk, oro, kw, info = _pe_setup(ctx, E, grid, layers, cls, str(rng.choice(['uneven', 'equidistant'])),
+                                  amp=float(rng.choice([0.3, 1.0])))
+    if not orography:
+      oro = np.zeros_like(oro)
+    info = dict(info, orography=orography)
+    clsname, leaves, key0 = E.CL[cls].__name__, _leaves, f'probe:pad:{cls}'
+    t0 = float(rng.choice([0.0, rng.uniform(0.5, 50.0)]))
+    kw1 = dict(kw)
+    for f, a in zip(('vorticity', 'divergence', 'temperature_variation'), pert):
+      kw1[f] = kw[f] * a
+
+    def state(S, scale=None):
+      return _mk_state(E, cls, kw if scale is None else kw1, t0 if scale is None else t0 + dt, S)
+
+  inp0 = dict(info, **_pad_info(grid), config=f'pad{ci}', grid=gname, integrator=name, filters=list(stack), dt=dt,
+              alpha=alpha if leap else None, seed=ctx.seed, steps=steps)
+  for k_ in (f'probe-pad-class={fam if fam == "sw" else cls}', f'probe-pad-integrator={name}', f'probe-pad-grid={gname}',
+             f'probe-pad-layers={layers}', f'probe-pad-orography={orography}',
+             f'probe-pad-filters={"+".join(stack) or "none"}'):
+    ctx.dist[k_] += 1
+
+  def run(S):
+    eq = mk(None if oro is None else (oro if S is None else S.modal(oro)))
+    return _pad_run(E, eq, state(S), state(S, pert) if leap else None, name, dt, alpha, filters, steps, leaves)
+
+  ref = None
+  with ctx.impl(key0 + ':raises', inp0):
+    ref = run(None)
+  if ref is None:
+    return
+  # the reference run must not be trivial on the resolved coefficients (a vanishing tendency would compare 0 with 0)
+  live = all(max(float(np.abs(v).max(initial=0.0)) for k, v in _masked(grid, ref[w]).items() if k != 'sim_time') > 0
+             for w in ('explicit', 'implicit', 'inverse', 'trajectory'))
+  for S in syms:
+    inp = dict(inp0, sym=S.tag())
+    ctx.dist[f'probe-pad-sym={S.name}'] += 1
+    got = None
+    with ctx.impl(f'{key0}:{S.name}:raises', inp):
+      got = run(S)
+    if got is None:
+      continue
+    for what in ('explicit', 'implicit', 'inverse', 'trajectory'):
+      ctx.case((key0, ci, gname, S.tag(), what, ctx.seed), nontrivial=(not S.identity) and live,
+               sample=inp if (what == 'explicit' and S.k is None and fam == 'sw') else None)
+      label = {'explicit': 'explicit_terms', 'implicit': 'implicit_terms', 'inverse': 'implicit_inverse',
+               'trajectory': f'{steps} steps of {name}'}[what]
+      _compare(ctx, f'{key0}:{S.name}:{what}', f'{clsname}.{label} ({S.tag()}, padded {gname})', inp,
+               _masked(grid, ref[what]), _masked(grid, got[what]), S, worst)
+
+
+def _probes_padded(ctx, E, worst):
+  rng, seed = ctx.rng, ctx.seed
+  # the modal actions are the symmetry of sections (a) - (c): checked against roll / flip on an UNPADDED fast grid
+  M0, deal0 = [(5, 'quadratic'), (7, 'quadratic'), (6, 'linear')][seed % 3]
+  _pad_actions_agree(ctx, E, E.std_grid(M0, deal0, 'gauss', 'fast'), worst)
+  table = list(PAD_TABLE_QUICK) + ([] if ctx.quick else list(PAD_TABLE_THOROUGH))
+  grids = [E.std_grid(M, deal, spacing, 'fast', base=b) for (M, deal, b, spacing) in table]
+  if not ctx.quick:
+    grids += [E.grid(M, L, N, J, 'gauss', 'fast', base=b) for (M, L, N, J, b) in PAD_TABLE_LARGE]
+  lat = [g for g in grids if g.nodal_padding[1] > 0]
+  lon = [g for g in grids if g.nodal_padding[0] > 0]
+  for g in grids:   # the table is what its comments say: every grid is padded somewhere, all three kinds occur
+    assert any(g.nodal_padding) or any(g.modal_padding), _gname(g)
+  assert lat and lon and any(g.modal_padding[0] for g in grids) and any(g.modal_padding[1] for g in grids)
+  if ctx.quick:
+    g_mir = lat[seed % len(lat)]
+    g_rot = [g for g in lon if g is not g_mir][seed % (len(lon) - 1)]
+    chosen = [(g_mir, 'mirror'), (g_rot, 'rot')]
+  else:
+    chosen = [(g, 'both') for g in grids]
+  sw_int = ['sil3', 'leapfrog', 'rk3', 'cnrk2', 'bfe', 'rk4']
+  pe_int = ['rk4', 'leapfrog', 'cnrk2', 'bfe', 'sil3', 'rk3']
+  ci = 0
+  for gi, (g, role) in enumerate(chosen):
+    _pad_actions_agree(ctx, E, g, worst)
+    N = g.longitude_nodes
+    ks = [k for k in _ks(rng, N) if k % N != 0]
+    if ctx.quick:   # the symmetry whose axis is padded, always; the other one on one of the two equation families
+      rot = [PadSym(g, ks[(seed + gi) % len(ks)])]
+      mir = [PadSym(g, None)]
+      syms_sw = (mir if role == 'mirror' else rot) + ((rot if role == 'mirror' else mir) if (seed + gi) % 2 == 0 else [])
+      syms_pe = (mir if role == 'mirror' else rot) + ((rot if role == 'mirror' else mir) if (seed + gi) % 2 == 1 else [])
+    else:
+      syms_sw = syms_pe = [PadSym(g, k) for k in ks[:3]] + [PadSym(g, None)]
+    big = g.longitude_wavenumbers > 12
+    # shallow water: 1 - 2 layers, with and without orography (both over the two grids of a quick run)
+    sw_confs = [((seed + gi) % 2 + 1, bool((seed + gi + 1) % 2))] if (ctx.quick or big) else [(1, True), (2, False), (2, True)]
+    for (n, with_oro) in sw_confs:
+      name = sw_int[(ci + seed) % len(sw_int)]
+      stack = ((['ra'], ['exp', 'ra'], [])[ci % 3] if name == 'leapfrog' else ([], ['exp'], ['diff'])[ci % 3])
+      _pad_config(ctx, E, g, syms_sw, 'sw', ci, worst, layers=n, orography=with_oro, name=name, stack=stack)
+      ci += 1
+    pe_confs = [('dry', 1 + (seed + gi) % 3)] if ctx.quick else ([('dry', 2)] if big else [('dry', 3), ('moist', 2)])
+    for (cls, n) in pe_confs:
+      name = pe_int[(ci + seed) % len(pe_int)]
+      stack = ((['ra'], [])[ci % 2] if name == 'leapfrog' else ([], ['exp'])[ci % 2])
+      _pad_config(ctx, E, g, syms_pe, 'pe', ci, worst, cls=cls, layers=n, orography=bool((ci + seed) % 3), name=name,
+                  stack=stack)
+      ci += 1
+
+
+# --------------------------------------------------------------------------
 
 LEAN_FILES = ['Dino/Symmetry.lean', 'Dino/SymmetryDrv.lean'] + [
     f'DinoProofs/Lemmas/{n}.lean' for n in (
@@ -823,6 +1094,9 @@ def run(ctx: common.Ctx):
   worst = [0.0]
   _probes(ctx, E, worst)
   _probes_sw(ctx, E, worst)
+  worst_pad = [0.0]
+  _probes_padded(ctx, E, worst_pad)
+  ctx.notes.append(f'(c) probes on padded fast layouts: worst relative defect {worst_pad[0]:.2e} (threshold {TOL:.0e})')
   ctx.notes.append(f'(c) probes: worst relative defect of equivariance on the real code {worst[0]:.2e} (threshold {TOL:.0e})')
   if not ctx.quick:
     ctx.leanchecker(['DinoProofs.Properties.C10'])
